@@ -1128,6 +1128,8 @@ mod mt {
     pub trait Num: oxidd_core::function::NumberBase + Send + Sync + 'static + std::fmt::Debug + Clone {
         fn parse(s: &str) -> Self;
         fn show(&self) -> String;
+        /// pairwise distinct values for the terminal capacity probe (TFILL)
+        fn from_index(i: u64) -> Self;
     }
     impl Num for I64 {
         fn parse(s: &str) -> Self {
@@ -1137,6 +1139,9 @@ mod mt {
                 "-inf" => I64::MinusInf,
                 _ => I64::Num(s.parse().unwrap()),
             }
+        }
+        fn from_index(i: u64) -> Self {
+            I64::Num(1_000_000 + i as i64)
         }
         fn show(&self) -> String {
             match self {
@@ -1150,6 +1155,9 @@ mod mt {
     impl Num for F64 {
         fn parse(s: &str) -> Self {
             F64::from(f64::from_bits(u64::from_str_radix(s, 16).unwrap()))
+        }
+        fn from_index(i: u64) -> Self {
+            F64::from(1.0e6 + i as f64)
         }
         fn show(&self) -> String {
             format!("{:016x}", f64::from(*self).to_bits())
@@ -1271,6 +1279,25 @@ mod mt {
                             s.push_str(&v.show());
                         }
                         Ok(s)
+                    }
+                    "TFILL" => {
+                        // terminal capacity probe: distinct constants, all kept alive, until the
+                        // terminal manager reports OutOfMemory (at most tcap + 8 attempts)
+                        let mut kept: Vec<Fun<T>> = Vec::new();
+                        let mut oomed = 0;
+                        for i in 0..(tcap as u64 + 8) {
+                            match core.mref.with_manager_shared(|m| Fun::<T>::constant(m, T::from_index(i))) {
+                                Ok(f) => kept.push(f),
+                                Err(_) => {
+                                    oomed = 1;
+                                    break;
+                                }
+                            }
+                        }
+                        let n = core.mref.with_manager_shared(|m| m.num_terminals());
+                        let r = format!("terms_at_end={} oom={} kept={}", n, oomed, kept.len());
+                        drop(kept);
+                        Ok(r)
                     }
                     "DROPALL" => {
                         core.slots.clear();
